@@ -95,6 +95,8 @@ std::string getResponseCode(ParameterException::Type type)
     case ParameterException::Type::INVALID_ORIGIN: return "INVALID_ORIGIN";
     case ParameterException::Type::INVALID_DESTINATION: return "INVALID_DESTINATION";
     case ParameterException::Type::INVALID_NUMERICAL_DATA: return "INVALID_NUMERICAL_DATA";
+    case ParameterException::Type::MISSING_PLACE: return "MISSING_PARAM_PLACE";
+    case ParameterException::Type::INVALID_PLACE: return "INVALID_PLACE";
     default: return "PARAM_ERROR_UNKNOWN";
   }
 }
